@@ -156,28 +156,47 @@ def run_impl(case):
         with warnings.catch_warnings():
             warnings.simplefilter('ignore')
             ops_list = case['ops_list']
-            snaps.append(dict(_observe(L, K, ops_list[0], True), complete=True))
+            snaps.append(dict(_observe(L, K, ops_list[0], True), complete=True, fresh=True))
             removed = []
+            complete, fresh = True, True
             k = 1
             for step in case.get('history', []):
-                if step[0] == 'remove':
+                kind = step[0]
+                mutate_only = kind.endswith('_only')
+                kind = kind[:-5] if mutate_only else kind
+                if kind == 'remove':
                     for e in step[1]:
                         c = _find(L, e)
                         L.remove(c)
                         removed.append(c)
-                    complete = False
-                elif step[0] in ('add', 'add_nofill'):
+                    complete, fresh = False, False
+                elif kind in ('add', 'add_nofill'):
                     for c in removed:
-                        if step[0] == 'add':
+                        if kind == 'add':
                             L.add(c)
                         else:
                             L.add(c, fill_up_cache=False)
                     removed = []
-                    complete = True
-                else:       # 'rebuild': a second lattice over the SAME concept objects, some left out
+                    complete, fresh = True, False
+                elif kind in ('cycle', 'cycle_nofill'):
+                    # remove and add back with NO read in between: same size, the re-added concepts now come last
+                    cs = [_find(L, e) for e in step[1]]
+                    for c in cs:
+                        L.remove(c)
+                    for c in cs:
+                        if kind == 'cycle':
+                            L.add(c)
+                        else:
+                            L.add(c, fill_up_cache=False)
+                    fresh = False
+                elif kind == 'rebuild':     # a second lattice over the SAME concept objects, some left out
                     L = ConceptLattice([c for c in L if sorted(c.extent_i) not in [sorted(e) for e in step[1]]])
-                    complete = not step[1]
-                snaps.append(dict(_observe(L, K, ops_list[k], False), complete=complete))
+                    complete, fresh = (not step[1]), False
+                # 'calc' and 'read' change nothing; a '*_only' step and 'read' observe WITHOUT recomputing
+                ops = [] if (mutate_only or kind == 'read') else ops_list[k]
+                if ops:
+                    fresh = True
+                snaps.append(dict(_observe(L, K, ops, False), complete=complete, fresh=fresh))
                 k += 1
         return {'n_bin': int(K.n_bin_attrs), 'snaps': snaps}
     r = guarded(go, timeout_s=60)
@@ -206,8 +225,8 @@ def to_coq(case, out):
                 coq(k['extent']), coq(k['intent']), coq(k['children']),
                 qlit(Fraction(*k['stab'])), qlit(Fraction(*k['lstab'])), qlit(Fraction(*k['ustab'])),
                 _optopt(k['logd']), _optopt(k['logm'])))
-        snaps.append('Build_c16_snap %s [%s] %s %s %s %s' % (
-            coq(bool(sn['complete'])), '; '.join(cs), coq(cum), coq(sn['keys']), coq(sn['lens']),
+        snaps.append('Build_c16_snap %s %s [%s] %s %s %s %s' % (
+            coq(bool(sn['complete'])), coq(bool(sn['fresh'])), '; '.join(cs), coq(cum), coq(sn['keys']), coq(sn['lens']),
             coq(bool(sn['match']))))
     return '%s [%s] 0' % (head, '; '.join(snaps))
 
@@ -298,7 +317,19 @@ def _mk(rng, t, kind, backend=None, algo=None, plain=False):
     elif inner and r < 0.4:
         # a second lattice that reuses the concept objects (and their stored measures)
         c['history'] = [['rebuild', rng.sample(inner, rng.randint(1, min(2, len(inner))))]]
-    c['ops_list'] += [_ops(rng) for _ in c['history']]
+    elif inner and r < 0.65:
+        # reads WITHOUT recomputing: the arrays of lattice.measures must follow the concepts of the
+        # current lattice (entry i = the value held by concept i) whatever was removed or added since
+        ex = ['remove_only', rng.sample(inner, rng.randint(1, min(2, len(inner))))]
+        back = [rng.choice(['add_only', 'add_nofill_only'])]
+        cyc = [rng.choice(['cycle_only', 'cycle_nofill_only']), ex[1]]
+        c['history'] = rng.choice([[ex, back, ['calc']],
+                                   [ex, ['calc'], back, ['read'], ['calc']],
+                                   [ex, back, ['read']],
+                                   [cyc, ['read'], ['calc']],
+                                   [cyc, ['calc']],
+                                   [['read'], cyc, ['calc'], cyc]])
+    c['ops_list'] += [([] if (st[0].endswith('_only') or st[0] == 'read') else _ops(rng)) for st in c['history']]
     return c
 
 
